@@ -1433,6 +1433,7 @@ func (e *Engine) checkReturnAsserts(fc *fnCtx, st *State, ret *ssa.Return) {
 		}
 		env.bindResults(fc.fn.Signature, rvals)
 		env.curBlock = ret.Block()
+		env.at = ret.Pos()
 		if f, okc := e.clauseTerm(env, cl); okc {
 			e.addObl(fc.fn, "assert", "["+key+"] "+cl.Text, ret.Pos(), st.Reach, f)
 		}
